@@ -29,6 +29,24 @@ Fixpoint tok3_ok (l : list Z) : bool :=
   end.
 Definition lex_ok : bool := (1 <=? zlen (tTok1 T)) && (2 <=? zlen (tTok2 T)) && tok3_ok (tTok3 T).
 
+(* (i) index safety of every table access, for EVERY state number and every token (reachable or not) *)
+Definition is_ok {A} (r : res A) : bool := match r with Ok _ => true | Panic _ => false end.
+Definition zseq (n : nat) : list Z := map Z.of_nat (seq 0 n).
+Definition nrules : nat := length (tR2 T).
+Definition state_index_ok (s : Z) : bool :=
+  is_ok (simple_state T s) && is_ok (idx 13 (tDef T) s) && is_ok (errshift_of T s) &&
+  forallb (fun t => is_ok (shift_of T s t) &&
+                    match idx 13 (tDef T) s with Ok d => if d =? -2 then is_ok (exca_lookup T s t) else true | Panic _ => false end)
+          all_tokens.
+Definition rule_index_ok (n : Z) : bool :=
+  match idx 32 (tR1 T) n, idx 30 (tR2 T) n with
+  | Ok nt, Ok r2 => (0 <=? r2) && is_ok (idx 33 (tPgo T) nt) &&
+                    forallb (fun base => is_ok (goto_of T base nt)) (zseq (length (tPact T)))
+  | _, _ => false
+  end.
+Definition index_ok : bool :=
+  forallb state_index_ok (zseq (length (tPact T))) && forallb rule_index_ok (zseq nrules).
+
 Definition mem (q : Z) (l : list Z) : bool := existsb (Z.eqb q) l.
 
 Section WithE.
